@@ -68,11 +68,31 @@ static inproc_pipe tp[4];
 static nni_pipe    np[4];
 static int         np_used;
 static int         fail_pipe_at = -1;
+static int np_reaped[4];
+/* what the core's reaper does with a closed pipe's transport half (pipe_reap, then pipe_destroy) */
+static void
+reap_pipe(int k)
+{
+	np_reaped[k] = 1;
+	inproc_pipe_close(&tp[k]);
+	inproc_pipe_stop(&tp[k]);
+	inproc_pipe_fini(&tp[k]);
+}
 static int
 pool_pipe(void **datap)
 {
 	if (np_used == fail_pipe_at) {
+		/* core/pipe.c pipe_create: the transport's p_init has run when the pipe's id or the protocol's per-pipe
+		 * state cannot be allocated; the unfinished pipe is closed and reaped, the caller gets the error */
 		fail_pipe_at = -1;
+		int k = np_used++;
+		env_pipe_init(&np[k], 200 + k, 0);
+		{
+			static const inproc_pipe tp_zero;
+			tp[k] = tp_zero;
+		}
+		inproc_pipe_init(&tp[k], &np[k]);
+		reap_pipe(k);
 		return NNG_ENOMEM;
 	}
 	CHECK(np_used < 4, "harness: pipe pool large enough");
@@ -129,7 +149,7 @@ model_match(void)
 		int a = first_pending(1), c = first_pending(2);
 		if (a < 0 || c < 0)
 			break;
-#ifdef FAILPAIR
+#if defined(FAILPAIR) || defined(FAILPIPE)
 		expect(a, NNG_ENOMEM);
 		expect(c, NNG_ENOMEM);
 #else
@@ -330,6 +350,9 @@ harness(void)
 #ifdef FAILPAIR
 	env_alloc_fail_at = env_alloc_count;
 #endif
+#ifdef FAILPIPE
+	fail_pipe_at = FAILPIPE - 1; /* 1: the dialer's pipe, 2: the listener's pipe (the dialer's is allocated first) */
+#endif
 	SKEL
 	if (!kstop)
 		WITNESS("skeleton ran to its end");
@@ -343,7 +366,16 @@ harness(void)
 	for (int i = 0; i < MAXU; i++)
 		if (uaio_used[i])
 			CHECK(env_aio_completed(&uaio_at(i)) == 1, "after every endpoint closed each connect / accept has completed exactly once");
-#ifdef FAILPAIR
+#ifdef FAILPIPE
+	/* the pipe that was allocated before its partner failed has been closed by the transport: the reaper takes it */
+	for (int k = 0; k < 4; k++)
+		if (k < np_used && !np_reaped[k]) {
+			CHECK(np[k].closed, "C20: the half of a connection whose other half could not be allocated is closed");
+			reap_pipe(k);
+		}
+	WITNESS("pipe allocation failed");
+#endif
+#if defined(FAILPAIR) || defined(FAILPIPE)
 	CHECK(env_alloc_live == 0, "a connection that could not be set up leaves nothing allocated");
 #endif
 	CHECK(env_locks_held == 0, "no lock held");
